@@ -315,7 +315,7 @@ pub fn search_event(ctx: &mut Ctx, rtxn: &RoTxn, db: RawDb, idx: u16, metric: Me
     }
 
     json!({"open":"Ok","n": n as i64, "ntrees": ntrees as i64, "dov": dov as i64, "dim": dim as i64,
-        "queries": qout, "unknown": unknown, "baddim": baddim, "self": selfl, "n_results": n_results})
+        "queries": qout, "unknown": unknown, "baddim": baddim, "self": selfl, "n_results": n_results, "sides": false})
 }
 
 fn ctx_disjoint(all: &[u32]) -> RoaringBitmap {
